@@ -997,6 +997,10 @@ def deepcopy(interp, v, memo=None):
         return memo[id(v)]
     if type(v) is Sym or v is None or isinstance(v, (int, float, str, bool, bytes, np.number, type)) :
         return v
+    if type(v).__name__ == "SymKey":
+        from .interp import SymKey
+
+        return SymKey(deepcopy(interp, v.v, memo))
     import enum as _enum
 
     if isinstance(v, _enum.Enum):
